@@ -36,7 +36,7 @@ func isIntrinsic(name string, fn *ssa.Function) bool {
 	if strings.HasPrefix(name, zzPkg) {
 		return true
 	}
-	if strings.HasPrefix(name, "sync/atomic.") && fn != nil && fn.Signature.Recv() == nil {
+	if strings.HasPrefix(name, "sync/atomic.") && fn != nil && fn.Signature.Recv() == nil && len(fn.Blocks) == 0 {
 		return true
 	}
 	return false
@@ -614,6 +614,13 @@ func (e *Exec) zz(name string, args []Value, fn *ssa.Function) Value {
 		}
 		o := e.newObject(a, nil, "zzverif.BytesSparse")
 		return &Slice{Base: Loc{Obj: o}, Off: e.c64(0), Len: e.c64(int64(n)), Cap: e.c64(int64(n))}
+	case "Virtual":
+		n := args[0].(*Term)
+		if e.branch(tc.Slt(n, e.c64(0))) {
+			panic(pathEnd{"assume-false"})
+		}
+		o := e.newObject(&ArrayV{}, nil, "zzverif.Virtual")
+		return &Slice{Base: Loc{Obj: o}, Off: e.c64(0), Len: n, Cap: n}
 	case "Fill":
 		s := args[0].(*Slice)
 		n := e.concretize(s.Len, 0, e.job.MaxAlloc)
